@@ -1720,7 +1720,12 @@ def _format_t(path, root=T):
             prepr.append('.' + arg)
         elif op == '[':
             if type(arg) is tuple:
-                index = ", ".join([_format_slice(x) for x in arg])
+                if not arg:
+                    index = '()'
+                else:
+                    index = ", ".join([_format_slice(x) for x in arg])
+                    if len(arg) == 1:
+                        index += ','
             else:
                 index = _format_slice(arg)
             prepr.append(f"[{index}]")
